@@ -18,6 +18,7 @@ import sys
 sys.path.insert(0, os.path.dirname(os.path.abspath(__file__)))
 from _util import exc_class, limbs  # noqa: E402
 import c14_bigint as bigint  # noqa: E402
+from _util import cov_flush as bigint_cov_flush  # noqa: E402
 
 SEED = int(os.environ.get("VERIF_SEED", "0"))
 
@@ -477,6 +478,7 @@ def main_aes():
                 for job in jobs[i:]:
                     w.write(json.dumps(run_aes(job, inp["cfgs"], AES, spy, _mode_gcm)) + "\n")
                     w.flush()
+            bigint_cov_flush()
             os._exit(0)
         os.close(wfd)
         with os.fdopen(rfd) as rd:
@@ -505,6 +507,7 @@ def run_isolated(job, cfgs, AES, spy, gcm_mod):
             os.close(rfd)
             with os.fdopen(wfd, "w") as w:
                 w.write(json.dumps(run_aes(job, [c], AES, spy, gcm_mod)))
+            bigint_cov_flush()
             os._exit(0)
         os.close(wfd)
         with os.fdopen(rfd) as rd:
